@@ -173,11 +173,15 @@ theorem mem_joinBar (fs : List Bytes) (x : Nat) (hx : x ∈ joinBar fs) : x = BA
         · exact Or.inl h
         · exact Or.inr ⟨f', List.mem_cons_of_mem _ hf', hxf⟩
 
-theorem dropCR_of_not_mem (l : Bytes) (h : CR ∉ l) : dropCR l = l := by
-  unfold dropCR
-  rw [if_neg]
-  intro e
-  exact h (List.mem_of_getLast? e)
+theorem stripCRLF_id (l : Bytes) (h : CR ∉ l) : stripCRLF l = l := by
+  induction l with
+  | nil => rfl
+  | cons a t ih =>
+    cases t with
+    | nil => rfl
+    | cons b r =>
+      have ha : a ≠ CR := fun e => h (by simp [e])
+      rw [stripCRLF, if_neg (fun hh => ha hh.1), ih (fun e => h (List.mem_cons_of_mem _ e))]
 
 /-! ### the fields of a line contain neither separator nor line break -/
 
@@ -314,8 +318,17 @@ theorem parseLine_fat (it : Item) (h : Valid it) : parseLine (fat it) = some it 
   simp [fields, optField, e64 _ h.ts, e64 _ h.pass, e64 _ h.block, e64 _ h.complete, e64 _ h.error, e64 _ h.rt,
     e64 _ h.occ, e32, parseInt32_decInt _ h.cls_lo h.cls_hi, hsan]
 
-theorem parseLine_dropCR_fat (it : Item) (h : Valid it) : parseLine (dropCR (fat it)) = some it := by
-  rw [dropCR_of_not_mem _ (fat_plain it h.res).2, parseLine_fat it h]
+theorem serialise_noCR (its : List Item) (h : ∀ it ∈ its, Valid it) : CR ∉ serialise its := by
+  induction its with
+  | nil => simp [serialise]
+  | cons it r ih =>
+    rw [serialise]
+    intro hm
+    rcases List.mem_append.1 hm with hm | hm
+    · exact (fat_plain it (h it (by simp)).res).2 hm
+    · rcases List.mem_cons.1 hm with hm | hm
+      · simp [CR, LF] at hm
+      · exact ih (fun x hx => h x (List.mem_cons_of_mem _ hx)) hm
 
 theorem splitLines_serialise (its : List Item) (h : ∀ it ∈ its, Valid it) :
     splitLines (serialise its) = its.map fat := by
@@ -327,11 +340,11 @@ theorem splitLines_serialise (its : List Item) (h : ∀ it ∈ its, Valid it) :
     rfl
 
 theorem filterMap_parse_fat (its : List Item) (h : ∀ it ∈ its, Valid it) :
-    (its.map fat).filterMap (fun l => parseLine (dropCR l)) = its := by
+    (its.map fat).filterMap parseLine = its := by
   induction its with
   | nil => rfl
   | cons it r ih =>
-    rw [List.map_cons, List.filterMap_cons, parseLine_dropCR_fat it (h it (by simp)),
+    rw [List.map_cons, List.filterMap_cons, parseLine_fat it (h it (by simp)),
       ih (fun x hx => h x (List.mem_cons_of_mem _ hx))]
 
 /-! ### truncation at byte `k` -/
@@ -397,14 +410,15 @@ theorem splitLines_take_serialise (its : List Item) (hv : ∀ it ∈ its, Valid 
     cut, then whatever the fragment parses to -/
 theorem itemsFrom_take_serialise (its : List Item) (hv : ∀ it ∈ its, Valid it) (k : Nat) :
     itemsFrom ((serialise its).take k) 0
-      = wholeLines its k ++ (parseLine (dropCR (fragment its k))).toList := by
+      = wholeLines its k ++ (parseLine (fragment its k)).toList := by
   unfold itemsFrom
-  rw [List.drop_zero, splitLines_take_serialise its hv k, List.filterMap_append,
+  rw [List.drop_zero, stripCRLF_id _ (fun h => serialise_noCR its hv (List.mem_of_mem_take h)),
+    splitLines_take_serialise its hv k, List.filterMap_append,
     filterMap_parse_fat _ (fun x hx => hv x ((wholeLines_prefix its k).subset hx))]
   congr 1
   split_ifs with hf
-  · rw [hf]; simp [dropCR, parseLine]
-  · cases h : parseLine (dropCR (fragment its k)) <;> simp [h]
+  · rw [hf]; simp [parseLine]
+  · cases h : parseLine (fragment its k) <;> simp [h]
 
 theorem fragment_eq_nil_of_ge (its : List Item) (k : Nat) (h : (serialise its).length ≤ k) : fragment its k = [] := by
   induction its generalizing k with
@@ -821,7 +835,7 @@ theorem scanEnd_sorted (bs es : Nat) (res : Bytes) (l : List Item) (hs : l.Pairw
 
 theorem itemsFrom_serialise_zero (its : List Item) (hv : ∀ it ∈ its, Valid it) : itemsFrom (serialise its) 0 = its := by
   unfold itemsFrom
-  rw [List.drop_zero, splitLines_serialise its hv, filterMap_parse_fat its hv]
+  rw [List.drop_zero, stripCRLF_id _ (serialise_noCR its hv), splitLines_serialise its hv, filterMap_parse_fat its hv]
 
 theorem itemsFrom_serialise_at (its : List Item) (hv : ∀ it ∈ its, Valid it) (j : Nat) :
     itemsFrom (serialise its) (serialise (its.take j)).length = its.drop j := by
@@ -829,7 +843,7 @@ theorem itemsFrom_serialise_at (its : List Item) (hv : ∀ it ∈ its, Valid it)
   have e : (serialise its).drop (serialise (its.take j)).length = serialise (its.drop j) := by
     conv_lhs => arg 2; rw [← List.take_append_drop j its, serialise_append]
     exact List.drop_left
-  rw [e, splitLines_serialise _ (fun x hx => hv x (List.mem_of_mem_drop hx)),
+  rw [e, stripCRLF_id _ (serialise_noCR _ (fun x hx => hv x (List.mem_of_mem_drop hx))), splitLines_serialise _ (fun x hx => hv x (List.mem_of_mem_drop hx)),
     filterMap_parse_fat _ (fun x hx => hv x (List.mem_of_mem_drop hx))]
 
 theorem flatMap_itemsFrom (fs : Dir) (h : ∀ f ∈ fs, FileOK f ∧ ∀ it ∈ f.lines, Valid it) :
